@@ -1,9 +1,11 @@
 package main
 
 import (
+	"go/ast"
 	"go/token"
 	"go/types"
 	"sort"
+	"strconv"
 	"strings"
 
 	"golang.org/x/tools/go/ssa"
@@ -70,6 +72,25 @@ func strCases(u *Unit, fnName, tagSuffix string) map[string]bool {
 		for _, cs := range sw.Cases {
 			out[cs] = true
 		}
+	}
+	// the same table written as comparisons: `x == "zstd" || x == "gzip"`, `x != "zstd" && …`
+	if fd := u.DeclByName(fnName); fd != nil && tagSuffix != "" {
+		ast.Inspect(fd, func(n ast.Node) bool {
+			be, ok := n.(*ast.BinaryExpr)
+			if !ok || (be.Op != token.EQL && be.Op != token.NEQ) {
+				return true
+			}
+			for _, pr := range [][2]ast.Expr{{be.X, be.Y}, {be.Y, be.X}} {
+				id, isId := pr[0].(*ast.Ident)
+				lit, isLit := pr[1].(*ast.BasicLit)
+				if isId && isLit && lit.Kind == token.STRING && strings.HasSuffix(u.RefExpr(fd, id.Name), tagSuffix) {
+					if s, err := strconv.Unquote(lit.Value); err == nil {
+						out[s] = true
+					}
+				}
+			}
+			return true
+		})
 	}
 	return out
 }
@@ -199,7 +220,9 @@ func runC17(c *Ctx) {
 				return
 			}
 			j := strings.Join(u.GuardStrings(in), " && ")
-			okR := strings.Contains(j, "containsEncoding(producible") && !strings.Contains(j, "!containsEncoding(producible") && strings.Contains(j, `!= "identity")`)
+			// membership in the producible list: the package's own helper or the equivalent slices.Contains
+			jn := strings.ReplaceAll(j, "slices.Contains[[]string, string](producible", "containsEncoding(producible")
+			okR := strings.Contains(jn, "containsEncoding(producible") && !strings.Contains(jn, "!containsEncoding(producible") && strings.Contains(j, `!= "identity")`)
 			d1 := u.Describe(ret.Results[1])
 			// the custom-only flag is (enc ∈ custom set) ∧ ¬(enc ∈ standard set): two comma-ok lookups on two distinct maps
 			maps := map[ssa.Value]bool{}
@@ -396,6 +419,12 @@ func runC18(c *Ctx) {
 		Instrs(rf, func(in ssa.Instruction) {
 			if al, ok := in.(*ssa.Alloc); ok && typeShort(al.Type()) == "*unsupportedEncodingError" {
 				unsup = true
+				// the refusal is what remains when every known coding has been excluded
+				// (a switch default, or the same written as != tests)
+				j := strings.Join(u.GuardStrings(in), " && ")
+				if strings.Contains(j, `!= "zstd")`) && strings.Contains(j, `!= "gzip")`) {
+					hasDefault = true
+				}
 			}
 		})
 		r.Check(setStr(arms) == `{"","gzip","identity","zstd"}` && hasDefault && unsup, "R-UNKNOWN-415", "readHTTPBody|switch", u.Pos(rf.Pos()), "known codings "+setStr(arms)+"; default → unsupportedEncodingError", "coding switch arms "+setStr(arms)+", default="+boolStr(hasDefault)+", unsupportedEncodingError built="+boolStr(unsup))
